@@ -687,12 +687,14 @@ for _p in ('C01', 'C03', 'C04', 'C05', 'C10', 'C13', 'C18'):
 
 # ---- client method skeletons: Client.Send / SendRaw / checkAck / writeAll regenerated (translator/client.go -> Gen/Client.lean) and proved equal to
 # the sequential client model's send / sendRaw for every state, configuration, peer and network behaviour (Tie/Client.lean)
-_SKC_THEOREMS = ['FV.Tie.Client_Send_is_model', 'FV.Tie.Client_SendRaw_is_model', 'FV.Tie.writeAll_shape']
-_SKC_TEXT = (" Regenerated tie for the sending methods: the bodies of Client.Send, SendRaw, checkAck and writeAll are re-read from fluent/client/client.go on "
-             "every run as sequences of client idioms (Gen/Client.lean; anything else is `.unknown`, a panic) and Client_Send_is_model / Client_SendRaw_is_model "
-             "(Tie/Client.lean) prove that running them on any state, under any configuration, write fault and peer response, yields exactly the result and "
-             "the events of the model's send / sendRaw.")
-for _p in ('C04', 'C06', 'C08', 'C09'):
+_SKC_THEOREMS = ['FV.Tie.Client_Send_is_model', 'FV.Tie.Client_SendRaw_is_model', 'FV.Tie.writeAll_shape', 'FV.Tie.Client_Connect_is_model',
+                 'FV.Tie.Client_Disconnect_is_model', 'FV.Tie.Client_Reconnect_is_model', 'FV.Tie.Client_TransportPhase_is_model',
+                 'FV.Tie.Client_Handshake_is_model']
+_SKC_TEXT = (" Regenerated tie for the client's methods: the bodies of Client.Send, SendRaw, checkAck, writeAll, Connect, Disconnect, Reconnect, connect, "
+             "disconnect, TransportPhase and Handshake are re-read from fluent/client/client.go on every run as sequences of client idioms (Gen/Client.lean; "
+             "anything else is `.unknown`, a panic) and Client_M_is_model (Tie/Client.lean) prove that running them on any state, under any configuration, "
+             "dial outcome, write fault and peer bytes, yields exactly the result and the events of the model's step for that operation.")
+for _p in ('C04', 'C05', 'C06', 'C08', 'C09', 'C10', 'C14'):
     PROPS[_p]['translator'] = True
     PROPS[_p]['lean_modules'] = PROPS[_p]['lean_modules'] + ['FluentVerif.Tie.Client']
     PROPS[_p]['theorems'] = PROPS[_p]['theorems'] + _SKC_THEOREMS
@@ -700,5 +702,5 @@ for _p in ('C04', 'C06', 'C08', 'C09'):
     PROPS[_p]['assumptions'] = PROPS[_p].get('assumptions', []) + [
         "translator/client.go is trusted to render each recognised client idiom as the CStmt of the same meaning (DESIGN 0.9)"]
     if 'sending methods are additionally tied by translation' not in PROPS[_p]['technique']:
-        PROPS[_p]['technique'] = PROPS[_p]['technique'] + ('; the sending methods are additionally tied by translation: bodies regenerated from the Go source '
-            'on every run and proved equal to the model\'s send / sendRaw')
+        PROPS[_p]['technique'] = PROPS[_p]['technique'] + ('; the sending methods are additionally tied by translation: the bodies of the TCP client\'s methods are '
+            'regenerated from the Go source on every run and proved equal to the model\'s step')
